@@ -232,6 +232,52 @@ def rule_s(F):
     return res
 
 
+def rule_f(F):
+    """C07.F: a refused set leaves no trace. Growing the hash part can fail (memory limit); the key list cannot. So in every
+    method that adds a key, nothing fallible may follow the addition to the key list: no error exit (an Err value, a `?`,
+    or a Result handed on as the function's own result) is reachable after `keys.push` / `keys.insert`. Otherwise a set
+    that reports OutOfMemory has still lengthened the table by a phantom row (len, for-each, pop, append all see it)."""
+    from cao.facts import DefUse, callee_names, op_local
+    from cao import framebal as fb
+    from cao import mirutil as mu
+    res = []
+    n = 0
+    for f in table_fns(F):
+        if not f.mir:
+            continue
+        du = DefUse(f)
+        cfg = f.cfg
+        adds = []
+        for bi, t in mu.calls(f):
+            nm = callee_names(t["func"])
+            if any(x.endswith("Vec::push") or x.endswith("Vec::insert") or x.endswith("Vec::extend_from_slice") for x in nm) and t["args"]:
+                a0 = op_local(t["args"][0])
+                if a0 is not None and mu.ref_of_field_chain(f, du, a0, ["keys"]):
+                    adds.append((bi, t))
+        if not adds:
+            continue
+        errs = [b for b in cfg.reach if fb._error_block(f, b)]
+        for bi, t in mu.calls(f):
+            if t["dest"]["l"] == 0 and not t["dest"]["p"] and bi not in errs:
+                errs.append(bi)       # `_0 = fallible(..)`: the callee's Result is the function's result
+        fname = (f.root or f.short).replace(TABLE + "::", "")
+        for k, (bi, t) in enumerate(adds):
+            n += 1
+            key = "C07/F/%s/nothing-fails-after-the-key-is-listed%s" % (fname, "" if k == 0 else "#%d" % k)
+            after = cfg.reachable_from(t["target"]) if t.get("target") is not None else set()
+            late = [e for e in errs if e in after]
+            if late:
+                res.append(bad("C07.F", key, f.loc(t.get("ln")),
+                               "CaoLangTable::%s puts the key on the key list and can still fail afterwards (the insertion into the hash part, "
+                               "which may have to grow under a memory limit, comes later): a set that reports OutOfMemory leaves a phantom row - "
+                               "len counts it, for-each and nth-row visit it with a nil value, pop returns nil for it" % fname))
+            else:
+                res.append(ok("C07.F", key, f.loc(t.get("ln")), "no error exit is reachable after the key was listed"))
+    if n < 1:
+        res.append(note("C07.F", "C07/F/no-addition-to-the-key-list", "", "no method adds to the key list (C07.S decides whether one should)"))
+    return res
+
+
 def same_arm_family(a, b):
     """`match self.keys.pop() { Some(key) => { .. map.remove .. } }`: the scrutinee and an arm of the same match"""
     for n, (x, y) in enumerate(zip(a, b)):
@@ -265,6 +311,7 @@ def rule_m(F):
 
 RULES = [
     Rule("C07.S", rule_s, 4, "map and keys change together in every mutator"),
+    Rule("C07.F", rule_f, 0, "nothing fallible follows the addition of a key to the key list"),
     Rule("C07.O", rule_o, 2, "insertion order survives every mutator of the key list"),
     Rule("C07.A", rule_a, 1, "append never overwrites an existing row"),
     Rule("C07.M", rule_m, 2, "no outside writer of one half"),
